@@ -439,6 +439,10 @@ Proof.
     destruct (m_pop raw s v (e_key item) false) as [s' [[|x [|y r]]|e]]; exact Hp.
   - now apply raw_reverse_inv.
   - now apply v_reverse_inv.
+  - now apply raw_extend_inv.
+  - now apply raw_extend_inv.
+  - unfold m_dict. destruct q; try exact H;
+      match goal with |- context [fetch ?k ?i ?p] => now destruct (fetch k i p) end.
 Qed.
 
 (* ViewInv after every history, whatever views the edits went through *)
